@@ -899,7 +899,12 @@ void subtotal_posts::operator()(post_t& post)
   account_t * acct = post.reported_account();
   assert(acct);
 
-  value_t amount(post.amount);
+  // A posting handed down by another subtotalling handler (--by-payee, --dow)
+  // carries its possibly multi-commodity value in compound_value; its own
+  // amount is then null.
+  value_t amount(post.has_xdata() &&
+                 post.xdata().has_flags(POST_EXT_COMPOUND) ?
+                 post.xdata().compound_value : value_t(post.amount));
 
   post.xdata().compound_value = amount;
   post.xdata().add_flags(POST_EXT_COMPOUND);
